@@ -65,10 +65,23 @@ def enum_conversion(world, cl, adt, rfc, lo, hi):
         cl.fail("anchor-lost %s" % short(ab), "public %s not found" % ab)
 
 
-def describe(eng, snap, i, frame_events):
-    """descriptor of element i of the array handed to concat"""
-    v = snap.get((("a", i),))
-    star = snap.get((("a", i), "*"))
+def describe(eng, seg, frame_events):
+    """RFC-level descriptor of one segment of a byte-vector layout (analyzer/stdmodel.py, `$layout`)"""
+    kind = seg[0]
+    if kind == "acc":
+        return ("accumulator",)
+    if kind == "nested":
+        if str(seg[2]).endswith("TransferOption::as_bytes"):
+            return ("option-bytes",)
+        return ("nested", seg[2])
+    if kind == "byte":
+        x = seg[1]
+        if x[0] == "i" and x[1] == (0, ()):
+            return ("zero",)
+        return ("byte", repr(x)[:30])
+    v = seg[1]
+    sd = dict(seg[2] or ())
+    star = sd.get(())
 
     def be(t):
         x = t[1][2][0]
@@ -92,16 +105,16 @@ def describe(eng, snap, i, frame_events):
     if isinstance(v, tuple) and v and v[0] == "r":
         if star is not None and (is_app(star, "to_be_bytes") or is_app(star, "to_le_bytes") or is_app(star, "to_ne_bytes")):
             return be(star) if star[1][1] == "to_be_bytes" else ("not-big-endian", star[1][1])
-        if snap.get((("a", i), "*", ("a", 0))) is not None and snap.get((("a", i), "*", "$len")) is not None:
-            ln = snap[(("a", i), "*", "$len")]
-            z = snap[(("a", i), "*", ("a", 0))]
+        if sd.get((("a", 0),)) is not None and sd.get(("$len",)) is not None:
+            ln = sd[("$len",)]
+            z = sd[(("a", 0),)]
             if ln[1] == (1, ()) and z[0] == "i" and z[1] == (0, ()):
                 return ("zero",)
             return ("bytes-const", repr(z)[:20])
         if v[1][0] == "P" and isinstance(v[1][1], tuple) and v[1][1][0] == "L" and len(v[1]) == 3 and v[1][2] == ():
             return ("field", tuple(v[2]))
-        so = snap.get((("a", i), "*", "$slice_of"))
-        sf = snap.get((("a", i), "*", "$slice_from"))
+        so = sd.get(("$slice_of",))
+        sf = sd.get(("$slice_from",))
         if so is not None and so[0] == "r" and sf is not None and sf[1] == (0, ()):
             # a full slice of a local: the local's last written value
             val = None
@@ -128,6 +141,17 @@ def describe(eng, snap, i, frame_events):
     if isinstance(v, tuple) and v and v[0] == "t" and isinstance(v[1], tuple) and v[1][0] == "app" and "concat" in str(v[1][1]):
         return ("option-bytes",)
     return ("?", repr(v)[:60])
+
+
+def describe_layout(eng, segs, frame_events):
+    out = []
+    for sg in segs:
+        d = describe(eng, sg, frame_events)
+        if d[0] == "nested":
+            out.extend(describe_layout(eng, sg[1], frame_events))
+        else:
+            out.append(d)
+    return out
 
 
 def check(world, tier):
@@ -160,25 +184,27 @@ def check(world, tier):
     vnames = [v["name"] for v in pk["variants"]]
     b.need(len([s for s in eng.finals if ret_discr(eng, s) == 0]), 6, "Ok return states of serialize (one per kind)")
     # dispatch: each variant reaches its own serializer: the first-level callee frames, keyed by the variant whose fields they receive
-    concats = [e for e in eng.events if base_name(e) == "std::slice::<impl [T]>::concat"]
-    by_frame = {}
-    for e in concats:
-        by_frame.setdefault(e.ctx, []).append(e)
+    # every construction step of a byte vector (concat, to_vec, extend_from_slice, push, append ...) with its cumulative layout
     layouts = {}
     opt_layouts = []
-    for fid, evs in by_frame.items():
+    # in-place building logs every prefix; only the maximal layout of each vector counts (a matching prefix followed by more bytes is no match)
+    maximal = []
+    for ent in eng.layout_log:
+        (node, fid, root, path, segs) = ent
+        if any(o[1] == fid and o[2] == root and o[3] == path and len(o[4]) > len(segs) and o[4][:len(segs)] == segs for o in eng.layout_log):
+            continue
+        if ent not in maximal:
+            maximal.append(ent)
+    for (node, fid, root, path, segs) in maximal:
         fevents = [x for x in eng.events if x.ctx == fid]
-        for e in evs:
-            snap = e.argsnap[0] or {}
-            n = snap.get(("$len",))
-            if n is None or n[1][1]:
-                continue
-            desc = [describe(eng, snap, i, fevents) for i in range(n[1][0])]
-            fn = eng.frame_bodies[fid].path
-            if fn.endswith("TransferOption::as_bytes"):
-                opt_layouts.append((e, desc))
-            else:
-                layouts.setdefault(fid, []).append((e, desc))
+        desc = describe_layout(eng, segs, fevents)
+        fn = eng.frame_bodies[fid].path
+        loc = eng.frame_bodies[fid].loc(node[1])
+        if fn.endswith("TransferOption::as_bytes"):
+            opt_layouts.append((loc, desc))
+        else:
+            layouts.setdefault(fid, []).append((loc, desc))
+    b.need(len(eng.layout_log), 8, "byte-vector construction steps in the serializer")
     # which variant does a first-level frame serve: fields referenced
     def variant_of(desc_list):
         vs = set()
@@ -210,13 +236,16 @@ def check(world, tier):
             want = None
         got = [d_ for (_, d_) in seen.get(vi, []) if d_ and d_[0][0] != "accumulator"]
         if want is not None:
-            ok = want in got
+            full = [d_ for d_ in got if len(d_) >= 2]
+            ok = want in got and all(d_ == want for d_ in full)
             b.ob(ok, "layout-%s" % vn, "%s is serialised as %s, RFC layout is %s" % (vn, got[:2], want),
                  sample={"kind": vn, "segments": [list(map(str, x)) for x in (got[0] if got else [])]})
         # options appended per element, in list order
         if vn in ("Rrq", "Wrq", "Oack"):
             accs = [d_ for fid, dl in layouts.items() for (_, d_) in dl if d_ and d_[0][0] == "accumulator"]
-            b.ob(any(d_ == [("accumulator",), ("option-bytes",)] for d_ in accs), "options-appended-%s" % vn,
+            optl = [list(d_) for (_, d_) in opt_layouts]
+            is_opt_append = lambda d_: d_ == [("accumulator",), ("option-bytes",)] or (d_[:1] == [("accumulator",)] and d_[1:] in optl)
+            b.ob(bool(accs) and all(is_opt_append(d_) for d_ in accs), "options-appended-%s" % vn,
                  "options are not appended one by one after the fixed part (found %s)" % accs[:2], nontrivial=False)
     # Oack starts with its opcode
     oack_ok = False
@@ -232,11 +261,11 @@ def check(world, tier):
                         oack_ok = True
     b.ob(oack_ok, "layout-Oack", "an OACK does not start with the big-endian opcode 6", sample={"kind": "Oack", "starts with": "be(6)"})
     b.need(len(opt_layouts), 1, "option serialisation")
-    for (e, desc) in opt_layouts:
+    for (loc_, desc) in opt_layouts:
         fo = [f["name"] for f in prog.adts[TRANSFEROPTION]["variants"][0]["fields"]]
         ok = len(desc) == 4 and desc[0] == ("option-name",) and desc[1] == ("zero",) and desc[2][0] == "decimal-of" and desc[3] == ("zero",) and \
             (desc[2][1] == "?" or tuple(desc[2][1][-1:]) == (fo.index("value"),))
-        b.ob(ok, "layout-option", "an option is serialised as %s, RFC 2347 layout is name NUL decimal-value NUL" % (desc,), e.loc,
+        b.ob(ok, "layout-option", "an option is serialised as %s, RFC 2347 layout is name NUL decimal-value NUL" % (desc,), loc_,
              sample={"option segments": [list(map(str, x)) for x in desc]})
     # ---------------------------------------------------------------- c offsets
     c = rep.clause("C11.c", "the decoder reads the offsets the serializer writes")
